@@ -96,6 +96,10 @@ class Deduping(DNAGenerator):
   """
 
   @property
+  def multi_objective(self) -> bool:
+    return self.generator.multi_objective
+
+  @property
   def needs_feedback(self) -> bool:
     return self.generator.needs_feedback
 
